@@ -287,7 +287,10 @@ _c("C14",
    "(Field instance, bare Field class, user Field subclass, python type, typing / PEP 585 generic, Optional, |, AnyOf) x 6 default "
    "spellings (=, = lambda, default=, default=lambda, annotation / assignment) x falsy and truthy values x 10 placements of the "
    "declaration (root, between members, subclass, deep subclass, several bases with a mix-in, bottom of a diamond, redeclaration, "
-   "Abstract / Immutable child), oracle = the same declaration without default rejects the value at construction; (2) 13 hierarchy "
+   "Abstract / Immutable child), oracle = the same declaration without default rejects the value at construction; (1b) invalid "
+   "field names (leading underscore, kwargs) x 34 member spellings (also bare Structure class by annotation / assignment, "
+   "ClassReference, function returning a field, Constant) x 12 placements x both guards, oracle = the same statement with a valid "
+   "name declares that field; (2) 13 hierarchy "
    "shapes (chain, diamonds with leaf / tall sides, double diamond, three-wide, grid, two roots, triangle, mix-ins, abstract root) x "
    "subsets of overriding classes x 6 override kinds, compared with the model in Coq and, on the implementation, field map "
    "(get_all_fields_by_name) against attribute lookup along the MRO: same object, same default on instances, same accept / reject "
